@@ -44,6 +44,14 @@ package ollamarunner
 //@   assert-at call removeSequence #3 : arg2 == llm.DoneReasonStop
 //@   assert-at call removeSequence #4 : arg2 == llm.DoneReasonStop && ghost_fs == 1
 //@   assert-at call removeSequence #5 : arg2 == llm.DoneReasonConnectionClosed && ghost_fs == 0 && ghost_cs == 0 && ghost_iu == 0
+// C07 (the cached state of a slot corresponds to the inputs recorded for it): the position handed
+// to the cache for an input is its index in the slot's record AT THAT MOMENT (cached + queued in
+// this batch, i.e. after a context shift has shortened the record), under the slot's sequence id;
+// after Forward the queued inputs are appended to the record (added after C07-seed3)
+//@   assume-at call append #5 : len(seq.cache.Inputs) + len(seq.pendingInputs) < 2147483648   -- range assumption (int32 positions)
+//@   assert-at call append #5 : arg1[0] == len(seq.cache.Inputs) + len(seq.pendingInputs)
+//@   assert-at call append #6 : arg1[0] == seq.cache.Id
+//@   assert-at call append #9 : arg0 == seq.cache.Inputs && arg1 == seq.pendingInputs
 
 // removeSequence: the final flush and the reason are in place before the stream is closed.
 //@ func (*Server).removeSequence
